@@ -332,6 +332,8 @@ def c14(tier):
             cfx.append({"k": "RefTanh", "c": [x]})
             cfx.append({"k": "Tanh", "c": [x], "iref": len(cfx)})
         run.submit(p1_job, "rounded-u%d" % unit, "MC_Def", {"prop": "C14", "cfgs": cfx, "alphabet": alpha, "unit": unit, "maxlen": L})
+        if unit == 10:
+            run.submit(p1_job, "rounded-u10-release", "MC_Def", {"prop": "C14", "cfgs": cfx, "alphabet": alpha, "unit": unit, "maxlen": L}, profile="release")
     # signed zeros: the input symbol 2147483647 is fed as -0.0 (the number 0 to the specification).  One correctly rounded operation
     # fixes the sign of a zero result; Tanh(-0.0) = -0.0 bit for bit; no answer may depend on the zero seen one step earlier
     NZ = 2147483647
